@@ -315,6 +315,29 @@ def run(tier, rep):
         alls = {i: r.choice(ALLS) for i in range(1, n + 1)}
         add(shape + '+failing-body', n, graph, forms, alls, list(range(len(graph[0]))), fail)
 
+    # (e) a module that cannot be found at first and can later (its directory is appended to sys.path in between): the first import raises
+    # ImportError, the later one finds it, runs its body exactly once and every further import shares that module
+    late_forms = ['import late%d\nprint("got", late%d.v)', 'from late%d import v\nprint("got", v)', 'import late%d as L\nprint("got", L.v)', 'from late%d import *\nprint("got", v)',
+                  'def f():\n    import late%d\n    return late%d.v\nprint("got", f())', 'from late%d import v as w\nprint("got", w)']
+    k = 0
+    for first in late_forms:
+        for second in late_forms:
+            for via in ('main', 'helper'):
+                k += 1
+                n = k
+                def blk(form, tag):
+                    body = (form.replace('%d', str(n)))
+                    return 'try:\n' + ''.join('    ' + l + '\n' for l in body.split('\n')) + 'except ImportError:\n    print("%s ImportError")\n' % tag
+                helper = 'print("exec helper")\n' + blk(second, 'helper')
+                src = ('import sys\nprint("exec main")\n' + blk(first, 'first') + blk(first, 'again-missing') +
+                       'for p in list(sys.path):\n    sys.path.append(p + "/sub")\n' +
+                       (blk(second, 'second') if via == 'main' else 'import helper%d\n' % n) + blk(first, 'third') + blk(second, 'fourth') +
+                       'import late%d as Z\nZ.lst.append(1)\nimport late%d as Y\nprint("same", Y is Z, len(Y.lst))\n' % (n, n))
+                files = {'sub/late%d.py' % n: 'print("exec late")\nv = %d\nlst = []\n' % n, 'helper%d.py' % n: helper, 'sub/other.py': 'x = 1\n'}
+                cid = 'g%d' % len(cases)
+                cases.append({'id': cid, 'src': src, 'files': files})
+                feats[cid] = {'shape': 'late-findable', 'forms': ['late'], 'all': [], 'n': 1, 'edge_forms': {}, 'cyclic': False, 'star_partial': False, 'failing_body': []}
+
     import concurrent.futures
     with concurrent.futures.ThreadPoolExecutor(2) as ex:   # the two observations are independent: overlap them
         fg = ex.submit(run_vrun, 'exec', cases, None, 30)
@@ -376,7 +399,7 @@ def run(tier, rep):
         rep.broke('statement forms never exercised by a case free of recorded defects: %s' % missing)
     rep.rule = ('import graphs over main + <=4 generated modules: %d fixed shapes (single, twice, chains, fan, shared, diamond, self, 2/3-cycles, diamond-cycle, two-paths) x statement form per edge '
                 '(exhaustive where forms^edges is small, else seeded samples) x every order of main\'s imports; seeded random digraphs incl. self loops and cycles; failing imports '
-                '(missing name, missing module caught strictly / loosely) inserted at random positions followed by further imports; module bodies that fail after having imported other modules, then re-imported. '
+                '(missing name, missing module caught strictly / loosely) inserted at random positions followed by further imports; module bodies that fail after having imported other modules, then re-imported; a module that is missing at the first import and findable later (sys.path grows in between). '
                 'distinct non-trivial = distinct (files, main) with >=2 modules or a cycle' % len(SHAPES))
     rep.samples = [{'features': feats[c['id']], 'main_excerpt': c['src'][-400:], 'm1_excerpt': c['files'].get('m1.py', '')[:300]} for c in (cases[5], cases[len(cases) // 2])]
     rep.extra = {'graphs': len(cases), 'exec_lines_observed': nexec_lines, 'cyclic_graphs': sum(1 for f in feats.values() if f['cyclic']),
